@@ -36,6 +36,34 @@ CLAIMED = {
    ref="DESIGN.md 6.9, 7 (C12), 8",
    note="Trusted: TLC, CRC32.tla (pinned to the standard check value). The third sentence is covered only for the grammar-derived hostile-length family, not for arbitrary byte strings; the resource bound is measured by the harness, not by the model. Buffer enlargement by the consumer is decided by the consumer-family check (called from here once built).",
    technique="TLA+ CRC-32 and message-set specification: TLC judges recorded decoder outcomes of mutated messages (trace validation) and computes truncation oracles; hostile-length vectors derived from the specification's field segmentation"),
+ "C07": dict(
+   text="ClientRouting.tla models KafkaClient at the level of operations and broker requests (metadata cache, leader/coordinator routing, the broker-agnostic request machine over connected, known and bootstrap hosts, per-request timers, pruning, close) and is model-checked exhaustively for a bounded cluster; an edge cover of its state graph, TLC -simulate behaviours, TLC-found shortest behaviours into goal states and seeded random schedules are executed on the real KafkaClient (real broker clients and protocols) over a simulated network and an independently coded simulated cluster, and TLC re-validates each recorded step: which broker receives which payloads, one request per broker, result order, failed-payload accounting, the order in which hosts are tried.",
+   ref="DESIGN.md 6.3, 7 (C07)",
+   note="Trusted: TLC, the simulated cluster (its codec is cross-checked against Wire.tla). Connection management is abstracted (reachable brokers connect at once); 3 brokers, 2 bootstrap hosts, 3 partitions, <=2 concurrent operations in the exhaustive model."),
+ "C08": dict(
+   text="Same specification and executions as C07, judged on the clauses of C08: after every metadata answer the public accessors (topic_partitions, topics_to_brokers, topic_errors, coordinator) must equal the model's cache, uncovered topics untouched; clients of brokers missing from a full refresh are closed; error codes 3/6, coordinator errors and failed payloads invalidate exactly what the model says; every reconnect attempt goes to the address of the latest metadata (re-addressed brokers, including port-only changes).",
+   ref="DESIGN.md 6.3, 7 (C08)",
+   note="Trusted as C07. The liveness sentence (producing/consuming resume after faults cease) is exercised on finite executions only: random schedules end with faults ceased and the operations must complete as the model predicts; no temporal property is model-checked."),
+ "C11": dict(
+   text="ClientRouting.tla with explicit request-timer epochs, run with disconnect_on_timeout off and on: every request armed before a clock advance has completed (timed out) after it, a late reply completes nothing, with disconnect-on-timeout the connection is dropped and the remaining requests are re-sent; checked exhaustively on the model and on every recorded execution of the real client (incl. connections that never establish, acks=0 requests, bootstrap requests).",
+   ref="DESIGN.md 6.3, 7 (C11)",
+   note="Time advances only in Timeout events; the timer-release clause is observed through pending delayed calls of the virtual clock. The min_timeout of group joins is exercised by the group family."),
+ "C20": dict(
+   text="ClientRouting.tla with Close enabled in every state (bootstrapping, connecting, requests in flight on several brokers, pruned clients whose connections are still closing) followed by explicit connection-gone events in every order: pending operations fail in the close event, new ones fail, nothing is issued or written afterwards, the cache is empty, the close Deferred fires exactly when the last connection has gone. Goal-directed TLC behaviours (close after two prunes, close during bootstrap, close with queued requests) are replayed on the real client; the broker-client side of close (incl. callbacks that cancel sibling requests re-entrantly) is checked with BrokerConn.tla in the same run.",
+   ref="DESIGN.md 6.1, 6.3, 7 (C20)",
+   note="Bootstrap connections are reaped by the auto-pilot as soon as the client asks; connections of closed broker clients are reaped by explicit events."),
+ "C01": dict(
+   text="Producer.tla (batching, partition lookup with metadata waits, produce attempts, per-payload outcomes, retries, cancellation, stop) is model-checked exhaustively per configuration (acks 0/1/-1, thresholds N/B/T); its behaviours are replayed on the real Producer over a scripted client, and seeded random executions of the real Producer over the real KafkaClient, broker clients and simulated cluster are recorded at producer level; TLC validates every step: which sends fire, success only from an acknowledged payload, exactly once, failure on every other outcome, and (full stack) that a successful send's messages are in the named partition's log, contiguous and in order, appended by its leader.",
+   ref="DESIGN.md 6.5, 7 (C01)",
+   note="Trusted: TLC, simulated cluster logs as ground truth. snappy is not installed (codec none only in this family; gzip is covered by C05)."),
+ "C09": dict(
+   text="Same specification and executions as C01, judged on C09's clauses: per-partition send order in every payload, a send in exactly one payload per attempt, no dispatch while a batch is unresolved, retries contain exactly the failed payloads, produce requests per batch <= max attempts, retry delays equal interval*1.20205^k from an independently computed table and restart after the batch resolves, pending producer timers as predicted.",
+   ref="DESIGN.md 6.5, 7 (C09)",
+   note="Delays compared with 2 microseconds tolerance."),
+ "C19": dict(
+   text="Same specification and executions as C01, judged on C19's clauses: dispatch exactly when a threshold is met or the timer ticks with nothing in flight, thresholds met during a batch take effect when it resolves, early cancellation removes the messages from the wire and from the accounting, late cancellation only detaches, stop fails everything outstanding, transmits nothing (no produce, no metadata request) and leaves no producer timer.",
+   ref="DESIGN.md 6.5, 7 (C19)",
+   note="Sending to a stopped producer is outside the documented use and is not scheduled."),
 }
 PENDING_REASON = "check not built yet in this round (framework under construction; see DESIGN.md section 12 for the order)"
 
